@@ -974,3 +974,160 @@ Proof.
   - exists l. split; [exact E|]. lia.
   - destruct HC as [HC _]. contradiction.
 Qed.
+
+(* ---------- % : lbuf_pair ---------- *)
+Definition RP (b : buf) (x : option (option (Z * Z))) (y : option (option Z)) : Prop :=
+  match x, y with
+  | Some (Some (r, o)), Some (Some j) => vpos b r o /\ idx b r o = j
+  | Some None, Some None => True
+  | None, None => True
+  | _, _ => False
+  end.
+
+Lemma pair_loop_sim b dir opn cls : buf_ne b -> dir = 1 \/ dir = -1 -> forall fuel dep r o, vpos b r o ->
+  RP b (pair_loop fuel b dir opn cls dep r o) (f_pair_loop (fchr b) (nchars b) fuel dir opn cls dep (idx b r o)).
+Proof.
+  intros NE Hd. induction fuel as [|f IH]; intros dep r o V; cbn [pair_loop f_pair_loop]; [exact I|].
+  next_step NE Hd V r1 o1.
+  destruct (fnext (nchars b) dir (idx b r o)) as [[] i1]; cbn [fst snd] in *; [exact I|].
+  rewrite (lchr_idx b r1 o1 V1), I1. cbv zeta. destruct (_ =? 0).
+  - cbn. auto.
+  - rewrite <- I1. apply IH, V1.
+Qed.
+
+Section FlatPair.
+  Variable F : Z -> chr.
+  Variable L : Z.
+  Variables opn cls : N.
+  Variable dir i : Z.
+
+  (* nesting depth after t steps from the bracket at i: 1 + (brackets like the one at i) - (its partners) *)
+  Definition pdelta (c : chr) : Z := (if N.eqb (b0 c) cls then -1 else 0) + (if N.eqb (b0 c) opn then 1 else 0).
+  Fixpoint pdepth (t : nat) : Z :=
+    match t with O => 1 | S t' => pdepth t' + pdelta (F (i + dir * Z.of_nat t)) end.
+
+  Lemma pdelta_ge c : -1 <= pdelta c.
+  Proof. unfold pdelta. destruct (N.eqb (b0 c) cls), (N.eqb (b0 c) opn); lia. Qed.
+
+  Lemma f_pair_loop_spec : dir = 1 \/ dir = -1 -> forall fuel n,
+    let p := i + dir * Z.of_nat n in
+    0 <= p < L -> Z.of_nat fuel > (if dir =? 1 then L - p else p + 1) -> 1 <= pdepth n ->
+    match f_pair_loop F L fuel dir opn cls (pdepth n) p with
+    | Some (Some j) => exists m, (n < m)%nat /\ j = i + dir * Z.of_nat m /\ 0 <= j < L /\ pdepth m = 0 /\
+                                 forall t, (n < t < m)%nat -> 1 <= pdepth t
+    | Some None => forall t, (n < t)%nat -> 0 <= i + dir * Z.of_nat t < L -> 1 <= pdepth t
+    | None => False
+    end.
+  Proof.
+    intros Hd. induction fuel as [|f IH]; intros n p Hp Hf Hdep.
+    - exfalso. destruct Hd as [-> | ->]; cbn in Hf; lia.
+    - cbn [f_pair_loop].
+      assert (Epos : p + dir = i + dir * Z.of_nat (S n)) by (unfold p; lia).
+      destruct (Z_le_dec 0 (p + dir)) as [H0|H0]; [destruct (Z_lt_dec (p + dir) L) as [H1|H1]|].
+      + rewrite fnext_ok by lia. cbv zeta.
+        assert (ED : (if N.eqb (b0 (F (p + dir))) opn
+                      then (if N.eqb (b0 (F (p + dir))) cls then pdepth n - 1 else pdepth n) + 1
+                      else (if N.eqb (b0 (F (p + dir))) cls then pdepth n - 1 else pdepth n)) = pdepth (S n)).
+        { cbn [pdepth]. rewrite <- Epos. unfold pdelta. destruct (N.eqb (b0 (F (p + dir))) cls), (N.eqb (b0 (F (p + dir))) opn); lia. }
+        rewrite ED. destruct (Z.eqb_spec (pdepth (S n)) 0) as [E0|E0].
+        * exists (S n). split; [lia|]. split; [exact Epos|]. split; [lia|]. split; [exact E0|]. intros; lia.
+        * assert (Hge : 1 <= pdepth (S n)).
+          { cbn [pdepth] in *. pose proof (pdelta_ge (F (i + dir * Z.of_nat (S n)))). lia. }
+          specialize (IH (S n)). cbv zeta in IH. rewrite <- Epos in IH.
+          assert (Hf' : Z.of_nat f > (if dir =? 1 then L - (p + dir) else p + dir + 1)).
+          { destruct Hd as [-> | ->]; cbn in *; lia. }
+          specialize (IH ltac:(lia) Hf' Hge).
+          destruct (f_pair_loop F L f dir opn cls (pdepth (S n)) (p + dir)) as [[j|]|]; [| |exact IH].
+          -- destruct IH as (m & Hm & Ej & Hj & Em & Hmin). exists m. split; [lia|]. split; [exact Ej|]. split; [exact Hj|].
+             split; [exact Em|]. intros t Ht. destruct (Nat.eq_dec t (S n)) as [->|]; [exact Hge|apply Hmin; lia].
+          -- intros t Ht Hr. destruct (Nat.eq_dec t (S n)) as [->|]; [exact Hge|apply IH; [lia|exact Hr]].
+      + rewrite fnext_fail by lia. intros t Ht Hr. exfalso. unfold p in *. destruct Hd as [-> | ->]; lia.
+      + rewrite fnext_fail by lia. intros t Ht Hr. exfalso. unfold p in *. destruct Hd as [-> | ->]; lia.
+  Qed.
+End FlatPair.
+
+Lemma pdepth_zero_cls F opn cls dir i m : pdepth F opn cls dir i (S m) = 0 -> 1 <= pdepth F opn cls dir i m ->
+  b0 (F (i + dir * Z.of_nat (S m))) = cls.
+Proof.
+  cbn [pdepth]. unfold pdelta. intros H0 H1.
+  destruct (N.eqb_spec (b0 (F (i + dir * Z.of_nat (S m)))) cls) as [E|E]; [exact E|].
+  destruct (N.eqb (b0 (F (i + dir * Z.of_nat (S m)))) opn); lia.
+Qed.
+
+Lemma pair_scan_some b r : forall fuel o o1 c, pair_scan fuel b r o = Some (o1, c) ->
+  o <= o1 /\ c = b0 (lchr b r o1) /\ c <> 0%N /\ index_of c pairs 0 <> None /\
+  forall k, o <= k < o1 -> index_of (b0 (lchr b r k)) pairs 0 = None.
+Proof.
+  induction fuel as [|f IH]; intros o o1 c E; cbn [pair_scan] in E; [discriminate|].
+  destruct (N.eqb_spec (b0 (lchr b r o)) 0) as [E0|E0]; [discriminate|].
+  destruct (index_of (b0 (lchr b r o)) pairs 0) eqn:EI.
+  - inversion E; subst. split; [lia|]. split; [reflexivity|]. split; [exact E0|]. split; [congruence|]. intros; lia.
+  - apply IH in E. destruct E as (H1 & H2 & H3 & H4 & H5). split; [lia|]. repeat split; auto.
+    intros k Hk. destruct (Z.eq_dec k o) as [->|]; [exact EI|apply H5; lia].
+Qed.
+
+Lemma pair_scan_none b r l : getl b r = Some l -> forall fuel o, 0 <= o -> Z.of_nat fuel + o > slen l ->
+  pair_scan fuel b r o = None ->
+  exists o1, o <= o1 /\ b0 (lchr b r o1) = 0%N /\ forall k, o <= k < o1 -> index_of (b0 (lchr b r k)) pairs 0 = None.
+Proof.
+  intro El. induction fuel as [|f IH]; intros o Ho Hf E.
+  - exists o. split; [lia|]. split; [|intros; lia]. unfold lchr, chr_at. rewrite El. destruct (Z.ltb_spec o 0); [reflexivity|].
+    unfold slen in Hf. rewrite nth_overflow by lia. reflexivity.
+  - cbn [pair_scan] in E. destruct (N.eqb_spec (b0 (lchr b r o)) 0) as [E0|E0].
+    + exists o. split; [lia|]. split; [exact E0|intros; lia].
+    + destruct (index_of (b0 (lchr b r o)) pairs 0) eqn:EI; [discriminate|].
+      apply IH in E; [|lia|lia]. destruct E as (o1 & H1 & H2 & H3). exists o1. split; [lia|]. split; [exact H2|].
+      intros k Hk. destruct (Z.eq_dec k o) as [->|]; [exact EI|apply H3; lia].
+Qed.
+
+Definition pair_dir (pidx : nat) : Z := if Nat.odd pidx then -1 else 1.
+Definition pair_other (pidx : nat) : N := nth (if Nat.odd pidx then pidx - 1 else pidx + 1)%nat pairs 0%N.
+(* the bracket the motion starts from: the first of ( ) [ ] { } at or after the cursor on its line *)
+Definition pair_first (b : buf) (r o o1 : Z) (c : N) (pidx : nat) : Prop :=
+  o <= o1 /\ vpos b r o1 /\ c = b0 (lchr b r o1) /\ index_of c pairs 0 = Some pidx /\
+  forall k, o <= k < o1 -> index_of (b0 (lchr b r k)) pairs 0 = None.
+
+Lemma pair_spec b r o : buf_ne b -> vpos b r o ->
+  match lbuf_pair (mfuel b) b r o with
+  | None => False
+  | Some None =>
+      (exists o1, o <= o1 /\ b0 (lchr b r o1) = 0%N /\ forall k, o <= k < o1 -> index_of (b0 (lchr b r k)) pairs 0 = None)
+      \/ (exists o1 c pidx, pair_first b r o o1 c pidx /\
+            forall t, (0 < t)%nat -> 0 <= idx b r o1 + pair_dir pidx * Z.of_nat t < nchars b ->
+                      1 <= pdepth (fchr b) c (pair_other pidx) (pair_dir pidx) (idx b r o1) t)
+  | Some (Some (r', o')) =>
+      exists o1 c pidx, pair_first b r o o1 c pidx /\ vpos b r' o' /\
+        exists m, (0 < m)%nat /\ idx b r' o' = idx b r o1 + pair_dir pidx * Z.of_nat m /\
+          b0 (lchr b r' o') = pair_other pidx /\
+          pdepth (fchr b) c (pair_other pidx) (pair_dir pidx) (idx b r o1) m = 0 /\
+          forall t, (0 < t < m)%nat -> 1 <= pdepth (fchr b) c (pair_other pidx) (pair_dir pidx) (idx b r o1) t
+  end.
+Proof.
+  intros NE (l & El & Ho). unfold lbuf_pair. rewrite El.
+  destruct (pair_scan (S (length l)) b r o) as [[o1 c]|] eqn:ES.
+  - apply pair_scan_some in ES. destruct ES as (H1 & H2 & H3 & H4 & H5).
+    destruct (index_of c pairs 0) as [pidx|] eqn:EI; [|congruence].
+    assert (V1 : vpos b r o1).
+    { exists l. split; [exact El|]. split; [lia|]. destruct (Z_lt_dec o1 (slen l)); [assumption|]. exfalso. apply H3. rewrite H2.
+      unfold lchr, chr_at. rewrite El. destruct (Z.ltb_spec o1 0); [reflexivity|]. unfold slen in *. rewrite nth_overflow by lia. reflexivity. }
+    assert (PF : pair_first b r o o1 c pidx) by (repeat split; auto; lia).
+    fold (pair_dir pidx). fold (pair_other pidx).
+    assert (Hd : pair_dir pidx = 1 \/ pair_dir pidx = -1) by (unfold pair_dir; destruct (Nat.odd pidx); auto).
+    pose proof (pair_loop_sim b (pair_dir pidx) c (pair_other pidx) NE Hd (mfuel b) 1 r o1 V1) as HS.
+    pose proof (f_pair_loop_spec (fchr b) (nchars b) c (pair_other pidx) (pair_dir pidx) (idx b r o1) Hd (mfuel b) 0) as HF.
+    cbv zeta in HF. cbn [pdepth] in HF. replace (idx b r o1 + pair_dir pidx * Z.of_nat 0) with (idx b r o1) in HF by lia.
+    pose proof (idx_range b r o1 V1) as HR. pose proof (mfuel_enough b) as HM.
+    specialize (HF HR). assert (Hfu : Z.of_nat (mfuel b) > (if pair_dir pidx =? 1 then nchars b - idx b r o1 else idx b r o1 + 1))
+      by (destruct (pair_dir pidx =? 1); lia).
+    specialize (HF Hfu ltac:(lia)).
+    destruct (pair_loop (mfuel b) b (pair_dir pidx) c (pair_other pidx) 1 r o1) as [[[r' o']|]|];
+      destruct (f_pair_loop (fchr b) (nchars b) (mfuel b) (pair_dir pidx) c (pair_other pidx) 1 (idx b r o1)) as [[j|]|];
+      cbn in HS; try contradiction.
+    + destruct HS as [V' I']. destruct HF as (m & Hm & Ej & Hj & Em & Hmin).
+      exists o1, c, pidx. split; [exact PF|]. split; [exact V'|]. exists m. split; [lia|]. split; [lia|]. split; [|split; [exact Em|]].
+      * rewrite (lchr_idx b r' o' V'), I', Ej. destruct m as [|m']; [lia|]. apply (pdepth_zero_cls _ c); [exact Em|].
+        destruct m' as [|m'']; [cbn; lia|apply Hmin; lia].
+      * intros t Ht. apply Hmin. lia.
+    + right. exists o1, c, pidx. split; [exact PF|]. intros t Ht Hr. apply HF; [lia|exact Hr].
+  - left. eapply pair_scan_none; [exact El|lia| |exact ES]. unfold slen. lia.
+Qed.
